@@ -834,3 +834,15 @@ func BadW3step(last uint64, delta uint64) uint64 {
 	}
 	return last + delta
 }
+
+// ---- W4: an interface value is compared with a constant of the type it holds ---------------------------------------------
+
+func GoodW4negotiated(v any) bool {
+	id, ok := v.(uint8)
+	return ok && v != uint8(0) && id < 15
+}
+
+func BadW4negotiated(v any) bool {
+	id, ok := v.(uint8)
+	return ok && v != 0 && id < 15
+}
